@@ -399,4 +399,16 @@ example :
     (call (call ⟨[]⟩ d1 none).1 d2 none).1.nsMap = [(some "p".toList, "urn:b".toList)] := by
   decide
 
+/-! ## the hypotheses of the theorems above are satisfiable (concrete non-trivial instances) -/
+
+-- fresh_refines_spec
+example : okStep witnessU Track.empty w3 (.findType "{urn:a}PA".toList) ∧
+    okStep witnessU Track.empty w3 (.findTypeByFields ["x".toList]) := by decide
+
+-- find_clazz_choice_exact_first
+example : ([⟨"billTo".toList, 0⟩, ⟨"buyer".toList, 1⟩] : List ChoiceVar).find?
+    (fun x => x.cls == 1) = some ⟨"buyer".toList, 1⟩ := by decide
+
+example : (Op.localNamesMatch ["x".toList] 0).indexFree = true ∧ (Op.fetch 0 (some "urn:a".toList) none).indexFree = true := by decide
+
 end Props.C14
